@@ -1,10 +1,10 @@
 SPECIFICATION Spec
 CONSTANTS
   MaxPg = 3
-  MaxOps = 3
+  MaxOps = 4
   BlockOf <- BlockL1
   LockPg = 0
-  AllowWAL = TRUE
+  AllowWAL = FALSE
   FinModes = {"DELETE"}
   AllowSpill = FALSE
   AllowBeyond = FALSE
@@ -15,7 +15,7 @@ CONSTANTS
   AllowCrash = FALSE
   FixJournalNoPS = TRUE
   FixModeOnOpen = TRUE
-  AllowDropDB = FALSE
+  AllowDropDB = TRUE
   AllowRetain = FALSE
   Emit = "idle"
 VIEW view
